@@ -6,7 +6,7 @@
    fragments they call).  The record called "filter" in the design is [fdesc] here (the name
    clashes with List.filter); [dfilter] is the data-plane form. *)
 From Coq Require Import List NArith Bool String.
-From GoUpf Require Import Bytes FlowTypes FlowSpec FlowDesc FlowDescProofs.
+From GoUpf Require Import Bytes FlowTypes FlowSpec FlowDesc FlowDescProofs FlowDescShape.
 Import ListNotations.
 Local Open Scope N_scope.
 
@@ -69,6 +69,13 @@ Theorem C16_total : forall s up,
   ((exists al, new_flow_desc s up = Ok al) \/ new_flow_desc s up = Err \/ new_flow_desc s up = Unmodelled).
 Proof. intros s up. split; [exact (total_parse s) | exact (total_new s up)]. Qed.
 Print Assumptions C16_total.
+
+(* T-gen tie: the bit sizes, keywords, separators, attribute order/kinds and convertSlice
+   shift/stride that the hand-written model fixes are the ones tools/gen found in /repo's
+   flowdesc.go and gtp5g.go on this run (gen/FlowDescGen.v). *)
+Theorem C16_source_shape : source_shape = model_shape.
+Proof. exact source_shape_ok. Qed.
+Print Assumptions C16_source_shape.
 
 (* non-vacuity: a concrete rule with both port lists, odd spacing and leading zeros *)
 Definition ex_rule : rule :=
